@@ -1706,7 +1706,10 @@ def _divisions_from_statistics(aggregated_stats, index_name):
 
     argsort = minmax.argsort()
     sorted_minmax = minmax[argsort]
-    if not sorted_minmax.is_monotonic_increasing:
+    # Sorted (min, max) pairs are trivially monotonic; divisions are only valid if
+    # the index ranges of consecutive files do not overlap (or touch)
+    pairs = list(sorted_minmax)
+    if any(prev[1] >= nxt[0] for prev, nxt in zip(pairs, pairs[1:])):
         return tuple([None] * (len(aggregated_stats) + 1)), None
     for file_min, file_max in sorted_minmax:
         divisions.append(file_min)
